@@ -31,7 +31,9 @@ fn script_for(seed: u64, fault: String, w_count: usize) -> Script {
         if fault == "decoder_panic" && w % 2 == 1 && seq == 1 + (w as u64 % 3) { return Act::Panic; }
         let iters = 1 + w % 4 + (x % 2) as usize * 4;
         match x % 20 {
-            0..=11 => Act::Good { iters },
+            0..=10 => Act::Good { iters },
+            // the decoder gives up although every systematic bit is right (residual errors in the parity part): not a frame error
+            11 => Act::Bad { flips: 0, ok: false, iters: 9 + w % 3 },
             12..=16 => Act::Bad { flips: 1 + (x >> 8) as usize % 2, ok: false, iters: 10 + w % 4 },
             _ => Act::Bad { flips: 3 + (x >> 8) as usize % 2, ok: true, iters: 6 + w % 3 },
         }
